@@ -57,7 +57,7 @@ def plan(tier, seed):
                               extra_pre=alphabet_pre(n, 'x+*-()'), budget=BUDGET[n], group=nm))
     # left association as a closed form: chains x (op x)^k with symbolic operators
     for k in (1, 2, 3) if tier == 'quick' else (1, 2, 3, 4, 5):
-        for nm in ('two_ops', 'direct', 'named', 'two_leftrec_rules'):
+        for nm in ('two_ops', 'direct', 'named', 'two_leftrec_rules', 'aliased'):
             obs.append(Ob(name=f'assoc_{nm}_k{k}', factory='vt.props.c03:make_assoc', spec={'grammar': nm, 'k': k},
                           params=[(f'o{i}', 0, 3) for i in range(k)], budget=120, group='assoc', require_tags=('ok',)))
     return {
@@ -89,7 +89,7 @@ def make_assoc(spec):
     gtext = render_grammar(rules)
     eng = Engine(gtext, SETTINGS)
     gen = GenParser(gtext, SETTINGS)
-    ops = {'two_ops': ['+', '-', '*'], 'direct': ['+', '+', '+'], 'named': ['+', '+', '+'], 'two_leftrec_rules': ['+', '*', '+']}[nm]
+    ops = {'two_ops': ['+', '-', '*'], 'direct': ['+', '+', '+'], 'named': ['+', '+', '+'], 'two_leftrec_rules': ['+', '*', '+'], 'aliased': ['+', '+', '+']}[nm]
     k = spec['k']
 
     def fold(chain):
